@@ -139,11 +139,12 @@ extern void *mpt_identifier_copy(MPT_STRUCT(identifier) *id, const MPT_STRUCT(id
 	else if (!(dest = malloc(from->_len))) {
 		return 0;
 	}
-	memcpy(dest, base, from->_len);
+	/* release old allocation before inline data overlays its address */
 	if (id->_len > id->_max) {
 		free(id->_base);
 		id->_base = 0;
 	}
+	memcpy(dest, base, from->_len);
 	if (dest != id->_val) {
 		memset(id->_val, 0, sizeof(id->_val));
 		id->_base = dest;
